@@ -17,11 +17,17 @@ def auditModule (env : Environment) (modName : Name) : IO Unit := do
       -- only theorems of the property namespace (Sema.Cxx): skips equation lemmas realised here
       let ns := (`Sema).str (modName.components.getD 1 `_ |>.toString)
       if !ns.isPrefixOf tv.name then continue
+      -- skip compiler-generated lemmas (equation lemmas, match/structure auxiliaries): they are not proof obligations
+      let last := match tv.name with | .str _ s => s | _ => ""
+      if last.startsWith "eq_" || last == "eq_def" || last.startsWith "match_" || last.startsWith "proof_" ||
+         last == "sizeOf_spec" || last == "injEq" || last == "inj" || last.startsWith "_" || last == "noConfusion" ||
+         last.endsWith "_eq" && (tv.name.toString.splitOn ".").any (·.startsWith "match_") then continue
       let (axs, _) ← ((collectAxioms tv.name : CoreM _).toIO
         { fileName := "<audit>", fileMap := default } { env := env })
       let axs := axs.qsort Name.lt
       let s := if axs.isEmpty then "-" else ",".intercalate (axs.toList.map toString)
-      IO.println s!"THEOREM {modName} {tv.name} AXIOMS {s}"
+      -- a hash of the statement (pretty-printing independent: the hash of the type expression)
+      IO.println s!"THEOREM {modName} {tv.name} AXIOMS {s} STMT {tv.type.hash}"
     | _ => pure ()
 
 unsafe def main (args : List String) : IO UInt32 := do
